@@ -109,9 +109,9 @@ pub fn c13(t: &[&str]) -> String {
 
 /// `v ARCH R_TYPE VALUE OLD` -> `E` (verify/write error) | `OK <new 16 bytes as two u64 LE>`
 pub fn c12(t: &[&str]) -> String {
-    let info = table(t[0], p64(t[1]) as u32).expect("no such relocation");
-    let value = p64(t[2]);
-    let old = p64(t[3]);
+    let info = table(t[1], p64(t[2]) as u32).expect("no such relocation");
+    let value = p64(t[3]);
+    let old = p64(t[4]);
     let mut buf = [0u8; 16];
     buf[..8].copy_from_slice(&old.to_le_bytes());
     buf[8..].copy_from_slice(&old.to_le_bytes());
